@@ -33,6 +33,20 @@ def presets(tier, seed=0):
         isos = workload.all_isos()
         pair = [workload.rotate([i for i in workload.HOSTILE if i in isos], seed * 7)[0], workload.rotate(isos, seed * 11 + 3)[0]]
         pres += [(n, o, pair) for n, o in workload.single_option_variations(a, named[a])]
+    # single-option variations of EVERY country-scale preset, each for a seeded sample of countries (the full grid of
+    # 164 countries x 36 presets x ~40 variations is beyond a run; thorough: 12 countries per variation, quick: 160 cells in all)
+    rs = random.Random(seed * 97 + 5)
+    isos_all = workload.all_isos()
+    cvar = []
+    for n, o, cl in list(pres):
+        if workload.is_global(o) or "~" in n or "scale" not in o:
+            continue
+        for vn, vo in workload.single_option_variations(n, o):
+            cvar.append((vn, vo))
+    if tier == "thorough":
+        pres += [(vn, vo, rs.sample(isos_all, 12)) for vn, vo in cvar]
+    else:
+        pres += [(vn, vo, [rs.choice(isos_all)]) for vn, vo in rs.sample(cvar, min(160, len(cvar)))]
     # single-option variations of the world-scale presets (every documented global value of every family)
     for anchor in ganchors:
         pres += [(n, o, ["WOR"]) for n, o in workload.single_option_variations(anchor, named[anchor])]
